@@ -445,6 +445,17 @@ func (e *Exec) modifiedBy(lp *loopParts) (map[interface{}]bool, map[string]bool,
 		// the log entries of the dry run stay (they over-approximate the real run)
 	}()
 	saved := e.st
+	savedRefAx := map[string]bool{}
+	for k := range e.refAx {
+		savedRefAx[k] = true
+	}
+	defer func() {
+		for k := range e.refAx {
+			if !savedRefAx[k] {
+				delete(e.refAx, k) // its axiom was emitted into the discarded declarations of the dry run
+			}
+		}
+	}()
 	savedFacts, savedDecls, savedErrs := len(e.facts), len(e.decls), len(e.errs)
 	savedDeclared := map[string]string{}
 	for k, v := range e.declared {
@@ -549,6 +560,15 @@ func (e *Exec) modifiedBy(lp *loopParts) (map[interface{}]bool, map[string]bool,
 	e.facts = e.facts[:savedFacts]
 	e.decls = e.decls[:savedDecls]
 	e.errs = e.errs[:savedErrs]
+	// sorts of the keys the loop modifies (a key first touched inside the body loses its declaration below)
+	if e.drySorts == nil {
+		e.drySorts = map[string]string{}
+	}
+	for k := range modH {
+		if srt := e.heapSort[k]; srt != "" {
+			e.drySorts[k] = srt
+		}
+	}
 	// heapInit entries declared during the dry run stay valid only if re-declared
 	for k := range e.declared {
 		if _, ok := savedDeclared[k]; !ok {
@@ -613,7 +633,11 @@ func (e *Exec) havocSet(modV map[interface{}]bool, modH map[string]bool, allocCh
 	for _, k := range hk {
 		sort := e.heapSort[k]
 		if sort == "" {
-			continue
+			// first touched inside the loop body: declare the entry version now, then forget it like the others
+			sort = e.drySorts[k]
+			if sort == "" {
+				continue
+			}
 		}
 		old := e.heapGet(k, sort)
 		if locs, ok := e.invLocs[k]; ok && e.dry == 0 {
@@ -689,9 +713,49 @@ func (e *Exec) runLoop(lp *loopParts) {
 	// 2. havoc modified state
 	modV, modH, allocCh := e.modifiedBy(lp)
 	var decBefore string
+	// implicit loop frame: a heap key that the loop head forgets completely keeps, at every iteration boundary, the
+	// function's own frame property (pre-existing locations outside 'modifies' have their entry values). Proved on
+	// entry and after every iteration, assumed at the head.
+	var frameKeys []string
+	if e.dry == 0 && e.contract != nil && !e.contract.NoFrame && len(e.frames) == 1 {
+		for k := range modH {
+			if _, partial := e.invLocs[k]; partial || e.freshOnly[k] {
+				continue
+			}
+			if e.heapSort[k] == "" && e.drySorts[k] == "" {
+				continue
+			}
+			frameKeys = append(frameKeys, k)
+		}
+		sortStrings(frameKeys)
+		var kept []string
+		for _, k := range frameKeys {
+			init, has := e.heapInit[k]
+			if !has || e.heapSort[k] == "" {
+				kept = append(kept, k) // not touched before the loop: trivially framed
+				continue
+			}
+			cur := e.heapGet(k, e.heapSort[k])
+			if cur == init {
+				kept = append(kept, k)
+				continue
+			}
+			if g, ok := e.frameGoal(k, cur); ok {
+				e.oblige(fmt.Sprintf("loop-frame-entry#%s[%s]", name, k), "frame", "frame holds when the loop is entered: "+k, g)
+				kept = append(kept, k)
+			}
+		}
+		frameKeys = kept
+	}
 	e.loopAlloc = e.st.alloc
 	e.havocSet(modV, modH, allocCh)
 	e.loopAlloc = ""
+	e.wfHeaps()
+	for _, k := range frameKeys {
+		if g, ok := e.frameGoal(k, e.heapGet(k, e.heapSort[k])); ok {
+			e.assume(g)
+		}
+	}
 	// 3. assume invariant
 	if lp.headFact != nil {
 		e.assume(lp.headFact())
@@ -731,8 +795,25 @@ func (e *Exec) runLoop(lp *loopParts) {
 		e.st.pc = tFalse
 	}
 	if !e.dead() {
+		if spec != nil && len(spec.Iteration) > 0 {
+			// per-iteration clauses: evaluated where the body ends, with the body's locals in scope
+			pos := e.curPos
+			if len(e.frames) == 1 || e.frame().closure {
+				e.curPos = lp.body.Rbrace
+			}
+			for i, it := range spec.Iteration {
+				t := e.specBool(it, e.loopEnv())
+				e.oblige(fmt.Sprintf("iteration#%s.%d", name, i), "assert", it.Text, t)
+			}
+			e.curPos = pos
+		}
 		if lp.post != nil {
 			lp.post()
+		}
+		for _, k := range frameKeys {
+			if g, ok := e.frameGoal(k, e.heapGet(k, e.heapSort[k])); ok {
+				e.oblige(fmt.Sprintf("loop-frame#%s[%s]", name, k), "frame", "frame still holds after the iteration: "+k, g)
+			}
 		}
 		if spec != nil {
 			for i, inv := range spec.Invariants {
@@ -1129,10 +1210,23 @@ func (e *Exec) runDefers(fr *Frame) {
 
 func (e *Exec) execGo(s *ast.GoStmt) {
 	// spawn event: evaluate the arguments; the body is not interleaved (A-SEQ)
+	var args []Val
 	for _, a := range s.Call.Args {
-		e.ev(a)
+		args = append(args, e.ev(a))
 	}
-	e.recordCallEvent(s.Call, nil, nil)
+	if _, isLit := s.Call.Fun.(*ast.FuncLit); isLit {
+		e.recordCallEvent(s.Call, nil, nil)
+	} else {
+		// go f(x) / go r.m(x): the spawn is a call event with the evaluated receiver and arguments; caller-side
+		// clauses (callsite ... requires, assert before) are checked at the spawn
+		fv := e.calleeValue(s.Call)
+		e.checkCallsite(s.Call, fv, args)
+		evArgs := args
+		if f, ok := fv.(FuncV); ok && f.Recv != nil {
+			evArgs = append([]Val{f.Recv}, args...)
+		}
+		e.recordCallEvent(s.Call, evArgs, nil)
+	}
 	if lit, ok := s.Call.Fun.(*ast.FuncLit); ok {
 		// spawn-requires: the preconditions of a goroutine body with its own contract hold when it is started
 		if k, ok := e.litOrd[lit]; ok && e.contract != nil {
